@@ -172,7 +172,7 @@ def run(chk):
         if d is not None:
             delta[bi] = d
             nappend += 1
-    chk.floor("R-SAUCE-AFFINE", "append sites in write_sauce_info", nappend, 23)
+    chk.floor("R-SAUCE-AFFINE", "append sites in write_sauce_info", nappend, 12)
     for bi, line, txt in unknown:
         chk.obligation(False)
         chk.finding("write_sauce_info|unknown-append|%s" % txt[:60], rule="R-SAUCE-AFFINE", where="%s:%s" % (wb.file, line), fn="write_sauce_info",
